@@ -35,8 +35,8 @@ class Rng:
 
 
 POLICIES = ["fifo", "lru", "lfu", "arc", "random", "tlru"]
-RET = ["u64", "String", "Result<u64, u64>", "std::result::Result<String, String>", "rt::Slow"]
-RET_IS_RESULT = [False, False, True, True, False]
+RET = ["u64", "String", "Result<u64, u64>", "std::result::Result<String, String>", "rt::Slow", "rt::Weighted"]
+RET_IS_RESULT = [False, False, True, True, False, False]
 WEIGHTS = [None, ("0.3", 3, 10), ("1.5", 3, 2), ("3.0", 3, 1), ("1", 1, 1)]
 # (attribute text, bytes)
 MEMS = [None, ("100", 100), ('"100"', 100), ('"1KB"', 1024), ("64", 64), ('"130"', 130)]
@@ -125,6 +125,9 @@ def build():
     # values whose Clone can be held by the harness: lookups that overlap in real time (C03/C14/C18)
     for fl in ["a", "g"]:
         fns.append(mk(len(fns), fl, "lru", ret=4))
+    # a user type with its own MemoryEstimator under max_memory (C05: "what its MemoryEstimator reports")
+    for fl in ["g", "a", "t"]:
+        fns.append(mk(len(fns), fl, "lru", mem=MEMS[5], ret=5))
     return fns
 
 
@@ -168,7 +171,7 @@ SIG_PARAMS = {
     5: "(p, q): (u32, u32), c: u32",
 }
 SIG_X = {0: "k", 1: "a", 2: "k", 3: "0u32", 4: "a", 5: "c"}
-BODY = ["body_u64", "body_string", "body_res_u64", "body_res_string", "body_slow"]
+BODY = ["body_u64", "body_string", "body_res_u64", "body_res_string", "body_slow", "body_weighted"]
 
 
 def emit(fns, out):
